@@ -127,10 +127,11 @@ macro_rules! b4 {
     ($v:ident, $opname:literal, $op:ident, $tr:tt, $tra:tt) => {
         $v.push(Bin { name: concat!("a ", $opname, " b"), op: Op2::$op, f: |a, b| a $tr b });
         $v.push(Bin { name: concat!("a ", $opname, " &b"), op: Op2::$op, f: |a, b| a $tr &b });
-        $v.push(Bin { name: concat!("a ", $opname, " &mut b"), op: Op2::$op, f: |a, mut b| a $tr &mut b });
+        // a `&mut` operand is only borrowed: it must hold the same value afterwards (otherwise the result is poisoned)
+        $v.push(Bin { name: concat!("a ", $opname, " &mut b"), op: Op2::$op, f: |a, mut b| { let before = b; let r = a $tr &mut b; if b == before { r } else { r + b + Self::ONE } } });
         $v.push(Bin { name: concat!("a ", $opname, "= b"), op: Op2::$op, f: |mut a, b| { a $tra b; a } });
         $v.push(Bin { name: concat!("a ", $opname, "= &b"), op: Op2::$op, f: |mut a, b| { a $tra &b; a } });
-        $v.push(Bin { name: concat!("a ", $opname, "= &mut b"), op: Op2::$op, f: |mut a, mut b| { a $tra &mut b; a } });
+        $v.push(Bin { name: concat!("a ", $opname, "= &mut b"), op: Op2::$op, f: |mut a, mut b| { let before = b; a $tra &mut b; if b == before { a } else { a + b + Self::ONE } } });
     };
 }
 macro_rules! bin_forms_for {
